@@ -57,13 +57,39 @@ class Lock:
         self.f.close()
 
 
-def run(cmd, cwd=None, env=None, timeout=1800, check=True, capture=True):
+def _limits(mem_gb):
+    import resource
+
+    def f():
+        os.setsid()
+        if mem_gb:
+            b = int(mem_gb * (1 << 30))
+            resource.setrlimit(resource.RLIMIT_AS, (b, b))
+    return f
+
+
+def run(cmd, cwd=None, env=None, timeout=1800, check=True, capture=True, mem_gb=None):
+    """Run a command in its own process group; on timeout the whole group is killed (a `make`
+    that is stopped must not leave its coqc children running).  mem_gb: address-space limit of
+    every process of the group (a diverging tactic must not eat the machine)."""
+    import signal
     e = dict(os.environ)
     if env:
         e.update(env)
-    p = subprocess.run(cmd, cwd=cwd, env=e, timeout=timeout, text=True,
-                       stdout=subprocess.PIPE if capture else None,
-                       stderr=subprocess.STDOUT if capture else None)
+    p = subprocess.Popen(cmd, cwd=cwd, env=e, text=True, preexec_fn=_limits(mem_gb),
+                         stdout=subprocess.PIPE if capture else None,
+                         stderr=subprocess.STDOUT if capture else None)
+    try:
+        out, _ = p.communicate(timeout=timeout)
+    except subprocess.TimeoutExpired:
+        try:
+            os.killpg(p.pid, signal.SIGKILL)
+        except OSError:
+            pass
+        out, _ = p.communicate()
+        out = (out or "") + "\n[timed out after %ss: %s]" % (timeout, " ".join(cmd))
+        p.returncode = 124
+    p.stdout = out
     if check and p.returncode != 0:
         raise Broken("command failed (%d): %s\n%s" % (p.returncode, " ".join(cmd), (p.stdout or "")[-4000:]))
     return p
@@ -126,7 +152,7 @@ def build_coq(targets, timeout=1500):
     """make the given .vo targets (full .vo builds only)."""
     with Lock("coq"):
         coq_makefile()
-        p = run(["make", "-j%d" % NCPU] + targets, cwd=COQ, timeout=timeout, check=False)
+        p = run(["make", "-j%d" % NCPU] + targets, cwd=COQ, timeout=timeout, check=False, mem_gb=12)
         return p.returncode == 0, p.stdout
 
 
